@@ -36,7 +36,7 @@ type C09Case struct {
 var c09Sizes = []int{0, 10, 4000, 4090, 4096, 4100, 8192, 65500, 65536, 65600, 200000}
 
 func genC09(t *rapid.T) C09Case {
-	c := C09Case{Target: rapid.SampledFrom([]string{"stdio-server", "stdio-server", "get-stream", "get-reconnect", "get-multi", "legacy-sse", "stdio-client"}).Draw(t, "target")}
+	c := C09Case{Target: rapid.SampledFrom([]string{"stdio-server", "stdio-server", "get-stream", "get-reconnect", "get-multi", "legacy-sse", "stdio-client", "post-stream"}).Draw(t, "target")}
 	if c.Target == "stdio-client" && Excluded("C09/stdio-client-unlocked-error-writer") {
 		CountExcluded("C09/stdio-client-unlocked-error-writer")
 		c.Target = "stdio-server"
@@ -345,6 +345,8 @@ func execC09(c C09Case) *Failure {
 		return execC09GetStalled(c)
 	case "get-multi":
 		return execC09GetMulti(c)
+	case "post-stream":
+		return execC09PostStream(c)
 	case "legacy-sse":
 		return execC09Legacy(c)
 	case "stdio-client":
@@ -536,6 +538,178 @@ func execC09GetStream(c C09Case) *Failure {
 		for r := 0; r < c.Rounds; r++ {
 			if n := seen[fmt.Sprintf("%s%d", nonces[i], r)]; n != 1 {
 				return TimingFailf("C09/get-stream/message-multiset", "%s: notification %s%d recovered %d times from the stream (%d events)", where, nonces[i], r, n, len(evs))
+			}
+		}
+	}
+	return nil
+}
+
+// execC09PostStream: a session without a listening stream has requests in flight whose answers are event streams (the
+// handlers emit notifications of their own), while other goroutines keep sending to that session and broadcasting. Whether
+// such a send is refused or delivered on one of the open answer streams is the library's choice; each answer stream stays one
+// well-framed byte stream written by one writer at a time: every event parses on its own, the call's own notifications are
+// there once each and in order, its response is there once, and nothing is written after the handler has returned.
+func execC09PostStream(c C09Case) *Failure {
+	w := padWorld(ModeSS, WorldOpt{})
+	defer w.Close()
+	w.Srv.RegisterTool(mcp.NewTool("padnote", mcp.WithString("pad"), mcp.WithString("nonce"), mcp.WithNumber("k")), func(ctx context.Context, req *mcp.CallToolRequest) (*mcp.CallToolResult, error) {
+		n, _ := req.Params.Arguments["nonce"].(string)
+		p, _ := req.Params.Arguments["pad"].(string)
+		k, _ := req.Params.Arguments["k"].(float64)
+		if sender, ok := mcp.GetNotificationSender(ctx); ok {
+			for i := 0; i < int(k); i++ {
+				sender.SendCustomNotification("notifications/in-call", map[string]interface{}{"nonce": fmt.Sprintf("%s-%d", n, i), "pad": p})
+				if i%2 == 0 {
+					runtime.Gosched()
+				} else {
+					time.Sleep(40 * time.Microsecond)
+				}
+			}
+		}
+		return mcp.NewTextResult(n + "|" + p), nil
+	})
+	conn, err := w.Connect()
+	if err != nil {
+		return Failf("C09/connect", "%v", err)
+	}
+	nPosts := 1 + c.Writers/4
+	if nPosts > 6 {
+		nPosts = 6
+	}
+	senders := c.Writers
+	if senders > 12 {
+		senders = 12
+	}
+	hdr := map[string]string{"Content-Type": "application/json", "Accept": "application/json, text/event-stream", "Mcp-Session-Id": conn.SessionID}
+	for round := 0; round < c.Rounds; round++ {
+		var sentMu sync.Mutex
+		sent := map[string]bool{}
+		var posts []*LiveResp
+		for pi := 0; pi < nPosts; pi++ {
+			nonce := fmt.Sprintf("P%dr%d", pi, round)
+			body, _ := json.Marshal(map[string]interface{}{"jsonrpc": "2.0", "id": 100 + pi, "method": "tools/call",
+				"params": map[string]interface{}{"name": "padnote", "arguments": map[string]interface{}{"nonce": nonce, "pad": padOf(c, pi), "k": 1 + (pi+round)%4}}})
+			pi := pi
+			lr := StartLive(w.Srv.Handler(), "POST", "http://verif/mcp", hdr, body, func(kind string, n int) {
+				// widen every write a little
+				if len(c.Jitter) > 0 {
+					if j := c.Jitter[(pi+n)%len(c.Jitter)]; j > 0 {
+						time.Sleep(time.Duration(j) * 20 * time.Microsecond)
+						return
+					}
+				}
+				runtime.Gosched()
+			})
+			posts = append(posts, lr)
+		}
+		stop := make(chan struct{})
+		var wg sync.WaitGroup
+		for si := 0; si < senders; si++ {
+			wg.Add(1)
+			go func(si int) {
+				defer wg.Done()
+				for n := 0; ; n++ {
+					select {
+					case <-stop:
+						return
+					default:
+					}
+					nonce := fmt.Sprintf("S%dr%dn%d", si, round, n)
+					sentMu.Lock()
+					sent[nonce] = true
+					sentMu.Unlock()
+					params := map[string]interface{}{"nonce": nonce, "pad": padOf(c, si)}
+					if si%3 == 2 {
+						w.Srv.BroadcastNotification("notifications/session-note", params)
+					} else {
+						w.Srv.SendNotification(conn.SessionID, "notifications/session-note", params)
+					}
+					if n%4 == 3 {
+						time.Sleep(30 * time.Microsecond)
+					}
+				}
+			}(si)
+		}
+		allBack := true
+		for _, lr := range posts {
+			if !lr.WaitReturned(Patience() + 2*time.Second) {
+				allBack = false
+			}
+		}
+		close(stop)
+		wg.Wait()
+		where := fmt.Sprintf("session without a listening stream, %d requests answered as event streams while %d goroutines send to the session (sizes %v, class %s), round %d", nPosts, senders, c.Sizes, c.Class, round)
+		if !allBack {
+			for _, lr := range posts {
+				lr.PeerGone()
+			}
+			return TimingFailf("C09/post-stream/request-does-not-return", "%s: a request had not returned %v later", where, Patience()+2*time.Second)
+		}
+		time.Sleep(2 * time.Millisecond) // a writer that outlives its handler shows as a late write
+		for pi, lr := range posts {
+			status, _, body, _, pan, late := lr.Snapshot()
+			if pan != nil {
+				return Failf("C09/post-stream/panic", "%s: request %d: %v", where, pi, pan)
+			}
+			if n := atomic.LoadInt64(&lr.Overlaps); n > 0 {
+				return Failf("C09/post-stream/concurrent-writes", "%s: the answer stream of request %d was written (or flushed) by two goroutines at once, %d times", where, pi, n)
+			}
+			if late > 0 {
+				return Failf("C09/post-stream/write-after-return", "%s: %d writes to the answer stream of request %d after its handler had returned", where, late, pi)
+			}
+			nonce := fmt.Sprintf("P%dr%d", pi, round)
+			wantK := 1 + (pi+round)%4
+			evs := lr.Events()
+			if status != 200 || len(evs) == 0 {
+				return Failf("C09/post-stream/no-answer", "%s: request %d answered with status %d and %d events: %.200q", where, pi, status, len(evs), body)
+			}
+			nextOwn, responses := 0, 0
+			seenNote := map[string]bool{}
+			for ei, e := range evs {
+				var m struct {
+					ID     json.RawMessage `json:"id"`
+					Method string          `json:"method"`
+					Params struct {
+						Nonce string `json:"nonce"`
+						Pad   string `json:"pad"`
+					} `json:"params"`
+					Result *struct {
+						Content []struct {
+							Text string `json:"text"`
+						} `json:"content"`
+					} `json:"result"`
+				}
+				if err := json.Unmarshal([]byte(e.Data), &m); err != nil {
+					return Failf("C09/post-stream/torn-event", "%s: event %d of request %d does not parse on its own (%v): %.200q", where, ei, pi, err, e.Data)
+				}
+				switch {
+				case m.Result != nil:
+					responses++
+					if string(m.ID) != fmt.Sprint(100+pi) || len(m.Result.Content) != 1 || m.Result.Content[0].Text != nonce+"|"+padOf(c, pi) {
+						return Failf("C09/post-stream/foreign-or-damaged-response", "%s: request %d (id %d) carries the response %.200q", where, pi, 100+pi, e.Data)
+					}
+					if ei != len(evs)-1 {
+						return Failf("C09/post-stream/event-after-response", "%s: request %d: %d events follow the response", where, pi, len(evs)-1-ei)
+					}
+				case m.Method == "notifications/in-call":
+					if m.Params.Nonce != fmt.Sprintf("%s-%d", nonce, nextOwn) || m.Params.Pad != padOf(c, pi) {
+						return Failf("C09/post-stream/message-multiset", "%s: request %d: in-call notification %d arrived as nonce %q (pad %d bytes)", where, pi, nextOwn, m.Params.Nonce, len(m.Params.Pad))
+					}
+					nextOwn++
+				case m.Method == "notifications/session-note":
+					sentMu.Lock()
+					ok := sent[m.Params.Nonce]
+					sentMu.Unlock()
+					if !ok || seenNote[m.Params.Nonce] {
+						return Failf("C09/post-stream/message-multiset", "%s: request %d carries the session notification %q (sent: %v, already seen on this stream: %v)", where, pi, m.Params.Nonce, ok, seenNote[m.Params.Nonce])
+					}
+					seenNote[m.Params.Nonce] = true
+				default:
+					return Failf("C09/post-stream/unknown-message", "%s: request %d carries %.200q", where, pi, e.Data)
+				}
+			}
+			if responses != 1 || nextOwn != wantK {
+				return Failf("C09/post-stream/message-multiset", "%s: request %d: %d responses and %d of its %d in-call notifications recovered from %d events", where, pi, responses, nextOwn, wantK, len(evs))
 			}
 		}
 	}
